@@ -159,6 +159,36 @@ def gmd(U: np.ndarray,
     return Q, R, P
 
 
+def _eig_of_symmetric_or_general_matrix(
+        A: np.ndarray) -> Tuple[np.ndarray, np.ndarray]:
+    """
+    Eigenvalues and eigenvectors of `A`, as returned by `np.linalg.eig`.
+
+    If `A` is symmetric (hermitian) the decomposition is computed with
+    `np.linalg.eigh`, which (unlike `np.linalg.eig`) returns orthonormal
+    eigenvectors also for repeated eigenvalues. The eigenvectors are
+    normalized as `np.linalg.eig` does (largest component is real).
+
+    Parameters
+    ----------
+    A : np.ndarray
+        A square matrix (bi-dimensional numpy array).
+
+    Returns
+    -------
+    np.ndarray, np.ndarray
+        The eigenvalues (1D numpy array) and a 2D numpy array with the
+        corresponding eigenvectors as its columns.
+    """
+    if A.shape[0] == A.shape[1] and np.allclose(A, A.conj().T):
+        [D, V] = np.linalg.eigh(A)
+        largest = V[np.argmax(np.abs(V), axis=0), np.arange(V.shape[1])]
+        V = V * (np.abs(largest) / largest)
+        return D, V
+    [D, V] = np.linalg.eig(A)
+    return D, V
+
+
 def peig(A: np.ndarray, n: int) -> Tuple[np.ndarray, np.ndarray]:
     """
     Returns a matrix whose columns are the `n` dominant eigenvectors of
@@ -199,7 +229,7 @@ def peig(A: np.ndarray, n: int) -> Tuple[np.ndarray, np.ndarray]:
         raise ValueError("`n` must be lower then the number of columns "
                          "in `A`")
 
-    [D, V] = np.linalg.eig(A)
+    [D, V] = _eig_of_symmetric_or_general_matrix(A)
     indexes = np.argsort(D.real)
     indexes = indexes[::-1]
     V = V[:, indexes[0:n]]
@@ -248,7 +278,7 @@ def leig(A: np.ndarray, n: int) -> Tuple[np.ndarray, np.ndarray]:
         raise ValueError("`n` must be lower then the number of columns "
                          "in `A`")
 
-    [D, V] = np.linalg.eig(A)
+    [D, V] = _eig_of_symmetric_or_general_matrix(A)
     indexes = np.argsort(D.real)
     V = V[:, indexes[0:n]]
     D = D[indexes[0:n]]
